@@ -1,6 +1,137 @@
-(* C19 — placeholder while the proofs are being written *)
+(* C19 — port multiplexing routes each connection to the right protocol, losing
+   no byte.  Statements only; proofs are in Proofs/C19PTreeProofs.v,
+   Proofs/C19SnifferProofs.v and Proofs/C19MuxProofs.v.
+
+   Models: Model/C19PTree.v (matcher.go: newNode / splitPrefix / match),
+   Model/C19Sniffer.v (listener.go: Conn, sniffer, over a read script of the raw
+   connection), Model/C19Mux.v (Listener.serve with io.ReadFull matchers, the
+   tables registered by service.listen). *)
 From Coq Require Import ZArith List Bool.
-From V Require Import Bytes C19PTree C19Sniffer C19Mux.
+From V Require Import Bytes C19PTree C19Sniffer C19Mux C19PTreeProofs C19SnifferProofs C19MuxProofs.
 Import ListNotations.
-Example C19_nonvacuous : fst (mux_serve true prod_tables [{| it_data := M_PLAY ++ [32;42;32] ++ RTSP_UP ++ [47;49;46;48;13;10;13;10]; it_err := 0 |}]) = DSvc SVC_RTSP.
-Proof. vm_compute. reflexivity. Qed.
+
+(* the patricia tree, as Go builds it for any list of strings, answers for
+   every input "some listed string is a prefix of the input".  Input shorter
+   than a node's prefix is a mismatch (false), there is no "need more".
+   (MatchPrefix() with no string at all matches everything: ptree_empty_matches_all.) *)
+Theorem C19_ptree_match_is_prefix_exists : forall strs b,
+  strs <> [] -> tree_match_prefix strs b = any_prefix strs b.
+Proof. exact ptree_match_is_prefix_exists. Qed.
+Print Assumptions C19_ptree_match_is_prefix_exists.
+
+(* the sniffing Conn: for every read script of the raw connection (any
+   segmentation, errors, deadlines), any number of sniffing sessions with
+   matcher reads of any sizes, and service reads of any sizes: no panic, every
+   matcher saw a prefix of the stream, and delivered ++ withheld ++ unread is
+   the original stream — each byte once, in order, from the first byte.
+   Holds for the original (fx = false) and the repaired (fx = true) code. *)
+Theorem C19_sniffer_replays_exactly : forall fx sc sessions svc ms rem0 rs s3,
+  sniff_run fx sc sessions svc = (ms, rem0, rs, s3) ->
+  forallb (fun m => no_rpanic m && is_prefix (session_seen m) (stream sc)) ms = true /\
+  length ms = length sessions /\
+  forallb (fun r => match r with SPanic => false | _ => true end) rs = true /\
+  length rs = length svc /\
+  delivered rs ++ pending s3 ++ stream (sn_src s3) = stream sc.
+Proof. exact sniffer_replays_exactly. Qed.
+Print Assumptions C19_sniffer_replays_exactly.
+
+(* complete: a service that keeps reading with non-empty buffers has the whole
+   stream after at most |stream| + |script| reads *)
+Theorem C19_service_reads_complete : forall fx sc sessions svc ms rem0 rs s3,
+  sniff_run fx sc sessions svc = (ms, rem0, rs, s3) ->
+  Forall (fun n => (0 < n)%nat) svc ->
+  (length (stream sc) + length sc <= length svc)%nat ->
+  delivered rs = stream sc.
+Proof. exact service_reads_complete. Qed.
+Print Assumptions C19_service_reads_complete.
+
+(* routing, end to end for the production registration (RTSP table first, then
+   HTTP): for every read script with no error before 16 bytes have arrived —
+   unless nothing follows the error (peer closed, or silent past the sniff
+   deadline) — the decision depends on the byte stream only, not on its
+   segmentation; RTSP request lines go to RTSP, HTTP ones (including every other
+   OPTIONS) to HTTP, streams that do not start with a method name are closed *)
+Theorem C19_classify_spec : forall sc,
+  good 16 sc = true ->
+  let d := fst (mux_serve true prod_tables sc) in
+  d = classify prod_tables (stream sc) /\
+  (forall m rest, In m rtsp_methods -> stream sc = m ++ rest -> d = DSvc SVC_RTSP) /\
+  (forall m rest, In m http_methods_other -> stream sc = m ++ SP :: rest -> d = DSvc SVC_HTTP) /\
+  (forall target version rest, no_sp target = true ->
+     stream sc = M_OPTIONS ++ SP :: target ++ SP :: version ++ CR :: LF :: rest ->
+     d = if options_is_rtsp target version then DSvc SVC_RTSP else DSvc SVC_HTTP) /\
+  ((forall m, In m (M_OPTIONS :: rtsp_methods ++ http_methods_other) -> is_prefix m (stream sc) = false) ->
+     d = DNone).
+Proof. exact classify_spec. Qed.
+Print Assumptions C19_classify_spec.
+
+(* the same for any registration: the first registered table holding a prefix
+   of the stream, none otherwise *)
+Theorem C19_mux_classify : forall fx tables sc,
+  tables_wf tables = true -> good (max_depth_all tables) sc = true ->
+  fst (mux_serve fx tables sc) = classify tables (stream sc).
+Proof. exact mux_classify. Qed.
+Print Assumptions C19_mux_classify.
+
+(* with no guard at all on the script: a connection only ever reaches a service
+   whose table holds a prefix of its stream; never a panic *)
+Theorem C19_mux_sound : forall fx tables sc d s',
+  tables_wf tables = true -> mux_serve fx tables sc = (d, s') ->
+  decision_sound tables (stream sc) d = true.
+Proof. exact mux_sound. Qed.
+Print Assumptions C19_mux_sound.
+
+(* a connection that never delivers a byte (silent past the sniff timeout, or
+   closed at once) reaches no service: the listener closes it *)
+Theorem C19_silent_closed : forall fx tables sc,
+  tables_wf tables = true -> no_empty_string tables = true ->
+  stream sc = [] -> fst (mux_serve fx tables sc) = DNone.
+Proof. exact mux_silent_closed. Qed.
+Print Assumptions C19_silent_closed.
+
+(* the decidable oracles applied to the implementation accept the model *)
+Theorem C19_model_passes : forall tables sc svc,
+  tables_wf tables = true ->
+  let '(d, rem0, rs) := mux_run true tables sc svc in
+  ok_serve tables sc svc d (dec_closed d) (dec_handed d) rem0 rs = true.
+Proof. exact serve_model_passes. Qed.
+Print Assumptions C19_model_passes.
+
+Theorem C19_sniff_model_passes : forall sc sessions svc ms rem0 rs s3,
+  sniff_run true sc sessions svc = (ms, rem0, rs, s3) ->
+  ok_sniff sc sessions svc ms rem0 rs = true.
+Proof. exact sniff_model_passes. Qed.
+Print Assumptions C19_sniff_model_passes.
+
+Theorem C19_ptree_model_passes : forall strs inputs, ok_ptree strs inputs (run_ptree strs inputs) = true.
+Proof. exact ptree_model_passes. Qed.
+Print Assumptions C19_ptree_model_passes.
+
+Theorem C19_loop_model_passes : forall head fill silent,
+  let '(d, handed, nrecv, eq) := loop_run head fill silent in
+  ok_loop head fill silent d handed nrecv eq = true.
+Proof. exact loop_model_passes. Qed.
+Print Assumptions C19_loop_model_passes.
+
+(* the defect repaired in /repo (fix: commit): with the original lastErr handling
+   a service reading "PO" of "POST *x\r\n" sees EOF and loses the rest *)
+Example C19_lasterr_prefix_refuted :
+  let sc := [{| it_data := [80;79;83;84;32;42;120;13;10]; it_err := EOF |}] in
+  let '(ms, rem0, rs, _) := sniff_run false sc [[16%nat]; [8%nat]] [2%nat; 31%nat] in
+  rs = [SOk [80;79] EOF 0; SOk [83;84;32;42;120;13;10] EOF 0] /\
+  ok_sniff sc [[16%nat]; [8%nat]] [2%nat; 31%nat] ms rem0 rs = false.
+Proof. exact lasterr_prefix_refuted. Qed.
+
+(* non-vacuity: a segmented OPTIONS request satisfies [good], is routed to RTSP
+   with the asterisk form and to HTTP otherwise; the service then reads the
+   stream from its first byte *)
+Example C19_nonvacuous :
+  let opt := M_OPTIONS ++ [32;42;32] ++ RTSP_UP ++ [47;49;46;48;13;10;13;10] in
+  let sc := [{| it_data := firstn 3 opt; it_err := 0 |}; {| it_data := skipn 3 opt; it_err := 0 |}] in
+  let opt2 := M_OPTIONS ++ [32;42;32;72;84;84;80;47;49;46;49;13;10;13;10] in
+  good 16 sc = true /\ tables_wf prod_tables = true /\
+  mux_run true prod_tables sc [5%nat; 64%nat] =
+    (DSvc SVC_RTSP, 6%nat, [SOk (firstn 5 opt) 0 6; SOk (skipn 5 (firstn 16 opt)) 0 6]) /\
+  fst (mux_serve true prod_tables [{| it_data := opt2; it_err := 0 |}]) = DSvc SVC_HTTP /\
+  fst (mux_serve true prod_tables [{| it_data := [71;69]; it_err := 0 |}; {| it_data := []; it_err := TIMEOUT |}]) = DNone.
+Proof. vm_compute. repeat split; reflexivity. Qed.
